@@ -33,6 +33,7 @@ CONSTANTS
   MaxSrc = 0
   TrackQueries = FALSE
   StickyQueries = FALSE
+  Preset = ""
   Observers = {"PrintModule", "PrintFunc", "PrintBlock", "QueryType", "QueryIdent", "QueryOperands", "QuerySuccs"}
   EmitFile = "transitions.ndjson"
 VIEW View
